@@ -205,8 +205,18 @@ def s15_5_version_alignment_sign(ctx, P):
             ctx.functions.discard(p)
     ctx.floor(P + ':S15-5:floor', 'callers of SigningKey::sign in packet::signature', len(callers), 5)
     for b in callers:
+        # the key whose version is compared must be the key that signs (receiver of SigningKey::sign), not e.g. the signee
+        recv = set()
+        for i, t in b.calls(r'SigningKey::sign$'):
+            recv |= set(x for x in b.operand_origins(t['args'][0]) if x.startswith('param:'))
+        vsites = [i for i, t in b.calls(r'KeyDetails::version$')
+                  if recv & set(x for x in b.operand_origins(t['args'][0]) if x.startswith('param:'))]
+        if not vsites:
+            ctx.violation('%s:S15-5:align:%s' % (P, b.path), 'R-sib', 'sign side: the version of the signing key itself is compared in %s' % b.path.split('::')[-1],
+                          function=b.path, missing='no KeyDetails::version call on the receiver of SigningKey::sign (%s)' % sorted(recv))
+            continue
         rdom(ctx, '%s:S15-5:align:%s' % (P, b.path), b, call_blocks(b, r'SigningKey::sign$'),
-             [r'call:.*SignatureConfig::version$', r'call:.*KeyDetails::version$'],
+             [r'call:.*SignatureConfig::version$', r'cs:.*KeyDetails::version#(%s)$' % '|'.join(str(i) for i in vsites)],
              'sign side: (signature version, key version) guard dominates SigningKey::sign in %s' % b.path.split('::')[-1], rule='R-sib', mode='each')
 
 
